@@ -785,12 +785,14 @@ fn exec_seq(line: &str, t: &[&str], rec: &mut Recorder) {
                 out.iter().map(|(r, v)| format!("{}@{}", r, v / 1000)).collect::<Vec<_>>().join(";"),
                 log_tok(&log, true)
             );
-            // requests still in flight when a lookup returns are not modelled: exact only for batches of one
+            // batches of several servers: a zero-latency reply or a reconnect on a reused connection
+            // makes the outcome depend on poll order inside one instant (see `not_comparable`)
             let batch1 = c.ncr.max(1) == 1 || c.srvs.len() == 1;
-            let cmp = batch1;
+            let steps = || c.srvs.iter().flat_map(all_steps);
+            let cmp = batch1 || !steps().any(|st| st.lat_ms == 0 || st.rep == Rep::Rst);
             if !cmp {
                 rec.impl_only += 1;
-                rec.stat("impl_only_seq_batches_of_several");
+                rec.stat("impl_only_seq_poll_order_dependent");
             }
             let idx = rec.case(line.to_string(), if cmp { txt } else { "~".into() });
             for e in &log {
@@ -1697,7 +1699,7 @@ fn random_seq(o: &Opts, rec: &mut Recorder) {
             })
             .collect();
         let strat = if r.chance(1, 2) { "user" } else { "rr" };
-        let ncr = *r.pick(&[0usize, 1, 1, 1, 1, 2]);
+        let ncr = *r.pick(&[0usize, 1, 1, 2, 2, 3]);
         let att = match r.below(4) {
             0 => "-".to_string(),
             x => (x - 1).to_string(),
